@@ -1,30 +1,139 @@
-"""Which contract modules generate the obligations of which property."""
+"""Which contract modules generate the obligations of which property, and what is claimed."""
 
 A = {
-    "A1": "A1: IEEE doubles/complex128 treated as mathematical reals/complex numbers; float literals denote their decimal value",
+    "A1": "A1: IEEE doubles/complex128 treated as mathematical reals/complex numbers (complex64 storage identified with complex128); float literals denote their decimal value",
     "A2": "A2: int() truncates toward zero, // and % floor-based, np.arange(a,b,s) has ceil((b-a)/s) elements",
     "A3": "A3: NumPy int64 does not overflow for array sizes",
     "A4": "A4: numba nopython kernels (@parallelize) compute what the Python body computes; the parallel flag has no semantic effect",
     "A5": "A5: left-to-right evaluation, no operator overloading other than NumPy's",
-    "A6": "A6: only exceptions named in a contract occur (no MemoryError/KeyboardInterrupt)",
-    "A7": "A7: SHA-256 injective; ndarray.tobytes() injective for fixed dtype and shape",
-    "A8": "A8: transcendental functions are uninterpreted symbols constrained by named axiom instances",
-    "CPY": "function bodies are executed by CPython on symbolic proxies: Python semantics of the executed subset are CPython's own; proxies model int/float/complex/list/dataclass values",
+    "A6": "A6: only exceptions named in a contract occur (no MemoryError/KeyboardInterrupt); a/b is a field operation (ZeroDivision outside the model)",
+    "A7": "A7: SHA-256 injective; ndarray.tobytes()/repr injective on the hashed values",
+    "A8": "A8: transcendental functions are uninterpreted symbols constrained by named axiom instances only",
+    "CPY": "function bodies are extracted mechanically from /repo/src on every run and executed by CPython on symbolic proxies; the proxies model int/float/complex/list/dataclass values and the NumPy index operations used (pad, slices, fftshift/ifftshift, fftfreq, meshgrid, masks, fancy index, squeeze, linspace)",
+    "SLICE": "slices are treated as copies (no function under contract writes through a slice alias)",
 }
 
+T = {
+    "DFT": "DFT contract (DESIGN 3.2): fft2/ifft2 are the (un)normalised discrete Fourier sums; opaque in every VC",
+    "D1": "textbook lemma D1 (DC bin <-> mean) assumed", "D2": "textbook lemma D2 (linearity of the DFT) assumed",
+    "D3": "textbook lemma D3 (shift theorem) assumed", "D4": "textbook lemma D4 (convolution / reciprocity, DESIGN B.2) assumed",
+    "D5": "textbook lemma D5 (reflection, transposition) assumed",
+    "LCONV": "textbook theorem L-conv (a consistent, stable one-step method converges with its order; DESIGN B.3) assumed, not mechanised",
+    "IVPC": "contract IVP of ivp_solver used at its two call sites in S (verified separately in this same run)",
+    "Z3": "z3 (LIA/EUF/NRA) and the exact polynomial-identity normaliser of pyvc.valueview / pyvc.stepalg",
+    "MAP": "concurrent.futures.Executor.map yields results in task order irrespective of completion order and worker count (DESIGN 3.2; bounded conformance in bounded/C14.py)",
+    "NPLOAD": "np.load/np.savez contract (DESIGN 3.2): an unreadable entry raises OSError/ValueError/EOFError/KeyError/BadZipFile at load or member access; bounded conformance: every truncation point (bounded/C15.py kind npload-contract)",
+    "YAML": "yaml.safe_load returns the mapping denoted by the document",
+    "DC": "dataclasses.dataclass: the real CPython implementation is executed",
+}
+
+COMMON = [A["CPY"], A["A1"], A["A5"], A["A6"]]
+SOLVER_ASSUME = COMMON + [A["A2"], A["A3"], A["A4"], A["A8"], A["SLICE"]]
+TECH = "contracts (pre/post/exceptional post, constructive loop invariants, frame conditions) on the real functions; VCs by symbolic execution of the source extracted from /repo on every run; z3 + exact polynomial identities"
+
 PROPERTIES = {
+    "C01": {
+        "modules": ["ivp", "solver"], "level": "other", "floor": 500,
+        "assumptions": SOLVER_ASSUME, "trusted": [T["Z3"], T["LCONV"], T["DFT"], T["IVPC"]],
+        "explanation": "PROVED for all inputs: each layer step applied by ivp_solver is linear in the state, reads only its own layer (profiles at nodes i/i+1, z[i+1]-z[i], the mode's wavenumbers) and agrees with exp(dz*M) of the stated per-mode BVP through first order for any in-layer sampling (orders 0,1 of the extracted step; consistency); both boundary conditions are imposed exactly by the shooting combination (clause of the spectral contract SC of S: Hq(bottom)=1 via Prop(0)=I and the two initial states, Hq(top)=Kz*lambda*Hp(top) algebraically), the eigenvalue is the principal root of the TOP-node coefficients; every retained non-constant bin is treated this way (SC for all sizes/halos/modes). ASSUMED: the convergence theorem L-conv turning consistency+stability into convergence. BOUNDED only: the quantitative rate (error <= 3*max(dz/z), ratio >= 2.5 when the layer thickness is quartered) against an independent Riccati integration (bounded/C01.py).",
+        "level_text": "Discretisation contract proved for all inputs (consistency, locality, exact boundary conditions, spectral assembly); convergence follows by an assumed textbook theorem; the numerical rate is a bounded refinement study, labelled bounded.",
+        "level_note": "A1-A8; theorem L-conv assumed; rate measured only on the bounded family of bounded/C01.py.",
+    },
+    "C02": {
+        "modules": ["solver", "lemmas", "purity", "utilsc"], "level": "proof", "floor": 1500,
+        "assumptions": SOLVER_ASSUME, "trusted": [T["Z3"], T["D4"], T["DFT"], T["IVPC"]],
+        "explanation": "Reciprocity holds iff (B.2) both modes share the retained set and transfer functions, the footprint spectrum is H/N times cis(kappa.(r_m + P)) with P the PADDED offset (px*dx, py*dy), the footprint is transformed with the e^{-i} sums, and both are cropped by the pad widths: these are clauses of SC/TC proved on the code for symbolic sizes, halos (incl. None and incommensurate), truncations, levels and profiles; point_measurement returns sum(f*g).",
+        "level_text": "All clauses the DFT reciprocity computation needs are postconditions of the real solver proved for all inputs; the computation itself (D4) is textbook and assumed.",
+        "level_note": "A1-A8, D4 assumed (native conformance in bounded/C02.py); closures/precisions enter only through symbolic profiles and A1.",
+    },
+    "C03": {
+        "modules": ["solver", "lemmas"], "level": "proof", "floor": 1500,
+        "assumptions": SOLVER_ASSUME, "trusted": [T["Z3"], T["D1"], T["DFT"], T["IVPC"]],
+        "explanation": "DC clauses of SC: fftq[k,0,0] = S00 for every level (numeric and analytic), fftp[k,0,0] = p000 - S00*R(level_k) with R the trapezoid resistance (loop invariant of the mean-mode loop) or h/Kz (analytic), phase = 1 at DC; footprint source = 1/(nxe*nye) so N*DC = 1; halo == explicit padding as a lemma over the contract (same dx, dy, padded sizes, spectra; crop).",
+        "level_text": "Conservation statements are postconditions/loop invariants of the real solver proved for all inputs; mean <-> DC bin is textbook (D1).",
+        "level_note": "A1-A8, D1 assumed.",
+    },
+    "C04": {
+        "modules": ["solver", "ivp", "lemmas"], "level": "proof", "floor": 700,
+        "assumptions": SOLVER_ASSUME, "trusted": [T["Z3"], T["D2"], T["DFT"], T["IVPC"]],
+        "explanation": "SC gives fftq = ret*S*Hq*Phi and fftp = ret*(DC ? p000 - S00*R : S*Hp)*Phi with Hq, Hp, R, Phi, ret free of the source and of the background (frame: the specification terms do not mention q0/p000; the code equals them); ivp_solver is linear in its initial state (extracted step); bilinearity lemma over SC; footprint mode has S = 1/N (no source values).",
+        "level_text": "Linearity is a consequence of the spectral contract proved on the real code plus linearity of the DFT (D2, textbook).",
+        "level_note": "A1-A8, D2 assumed.",
+    },
+    "C05": {
+        "modules": ["ivp", "solver", "lemmas"], "level": "proof", "floor": 500,
+        "assumptions": SOLVER_ASSUME, "trusted": [T["Z3"], T["LCONV"], T["DFT"], T["IVPC"]],
+        "explanation": "Analytic branch: SC[analytic] states Hq = exp(-lambda*h), Hp = Hq/(Kz*lambda), mean p000 - S00*h/Kz, assembled through the SAME padding/truncation/shift/crop obligations as the numerical mode; the closed form solves the BVP (lemma). Design order: the h^k coefficients (k=0..3) of every entry of the step matrix extracted from the loop body equal those of exp(h*M) (16 exact polynomial identities). 'About eightfold' is the corollary via L-conv; measured only by the bounded stand-in.",
+        "level_text": "Closed form and third-order conditions proved exactly on the real code; the measured ratio is bounded.",
+        "level_note": "A1-A8; L-conv assumed for the corollary.",
+    },
+    "C06": {
+        "modules": ["solver", "lemmas", "purity"], "level": "proof", "floor": 700,
+        "assumptions": SOLVER_ASSUME, "trusted": [T["Z3"], T["D3"], T["D5"], T["DFT"], T["IVPC"]],
+        "explanation": "SC: transfer functions independent of source and measurement point; phase factors exactly cis(kappa.(r_m+P)) (footprint) and cis(kappa.(r_m - L/2)) iff r_m != 0 (dispersion); wavenumbers built from dx, dy and the PADDED sizes on the right axes; transform directions (TC). Whole-cell shifts are integer multiples of the bin angle (lemma). Translation then follows by the shift theorem D3 / reflection D5.",
+        "level_text": "All code-level clauses proved for all inputs; the DFT shift/reflection theorems are textbook.",
+        "level_note": "A1-A8, D3/D5 assumed.",
+    },
+    "C07": {
+        "modules": ["solver", "ivp", "symmetry"], "level": "proof", "floor": 650,
+        "assumptions": SOLVER_ASSUME, "trusted": [T["Z3"], T["D5"], T["DFT"], T["IVPC"]],
+        "explanation": "Relational identities on the code's own terms: the extracted step matrix, the eigenvalue argument, the wavenumber grids, retained sets, pad widths and phases under mirror-x/y, axis swap, length similarity and speed similarity; lifted through the layers by induction over Prop (base + step). With D5 the fields mirror/transpose.",
+        "level_text": "Symmetry identities are exact polynomial/LIA identities on terms extracted from the real code.",
+        "level_note": "A1-A8, D5 assumed; Nyquist bins excepted as in the statement.",
+    },
+    "C10": {
+        "modules": ["ivp", "solver", "interface"], "level": "proof", "floor": 1300,
+        "assumptions": SOLVER_ASSUME, "trusted": [T["Z3"], T["DFT"], T["IVPC"]],
+        "explanation": "ivp_solver: out[k] = Prop(levels[k]).init for every k, any order, duplicates (constructive loop invariants of all three loops); S: mean-mode bookkeeping by invariant, SC's level index is levels[k] in every clause (numeric and analytic), Z[k] = z[levels[k]], scalar level = one-element list; nothing in SC couples different k (multi == single); interface passes output_levels / full range / nz.",
+        "level_text": "Level bookkeeping proved by loop invariants on the real loops for symbolic numbers of levels and nodes.",
+        "level_note": "A1-A6.",
+    },
+    "C11": {
+        "modules": ["solver"], "level": "proof", "floor": 1500,
+        "assumptions": SOLVER_ASSUME, "trusted": [T["Z3"], T["DFT"], T["IVPC"]],
+        "explanation": "GEO in linear integer arithmetic over symbolic nx, ny, px, py, modes: raises exactly for odd modes / unknown precision / odd gap after the per-axis clamp, otherwise returns shape squeeze((m,ny,nx)) with X=i*dx, Y=j*dy; registration of every retained bin in and out (SC at fresh symbolic bins); low-pass: SC depends on the mode counts only through the retained set; clamp per axis.",
+        "level_text": "Shape, registration and exceptional behaviour proved for all grid sizes, halos and mode counts.",
+        "level_note": "A1-A6.",
+    },
+    "C12": {
+        "modules": ["purity"], "level": "other", "floor": 1600,
+        "assumptions": SOLVER_ASSUME, "trusted": [T["Z3"], T["DFT"], T["IVPC"]],
+        "explanation": "PROVED (real arithmetic): the result term of S is the same specification for every value of config.NUM_THREADS and for both storage precisions (the spec mentions neither), S and ivp_solver read no module-level name other than the declared ones, declare no global, write no module attribute, have no mutable default, do not mutate their arguments; get_fft_manager returns a manager with the requested thread count from any previous state; fft2/ifft2 forward their argument and norm to the library transform of the same direction; the kernel wrapper returns the kernel of the decorated body on the same arguments from any _compiled state. NOT decided by contracts: bit-identity, 1e-12 agreement across thread settings/processes, 1e-5 single/double agreement (floating point, schedulers): BOUNDED call sequences (bounded/C12.py).",
+        "level_text": "Frame conditions proved on the real code; floating-point and scheduling clauses are outside this family and covered by a bounded stand-in, labelled bounded.",
+        "level_note": "A1 (this is exactly what hides the rounding-level clauses), A4.",
+    },
+    "C13": {
+        "modules": ["interface", "parser", "met"], "level": "proof", "floor": 1000,
+        "assumptions": COMMON, "trusted": [T["Z3"], T["YAML"], T["DC"]],
+        "explanation": "run_bldfm_single's result record equals the documented pipeline term over keyword-normalised uninterpreted callees (48 discrete configurations x symbolic everything else); every parser field equals the raw value or the dataclass default; missing sections rejected; load_config = parse_config_dict(yaml.safe_load(file)); tower local coordinates and validate() at construction; get_step per C16.",
+        "level_text": "EUF equality between the real function's result and the specification term, for all inputs.",
+        "level_note": "callees uninterpreted (their own contracts: C08/C09/C02...); YAML library assumed.",
+    },
+    "C14": {
+        "modules": ["drivers", "met"], "level": "other", "floor": 90,
+        "assumptions": COMMON, "trusted": [T["Z3"], T["MAP"]],
+        "explanation": "PROVED: run_bldfm_timeseries / run_bldfm_multitower by constructive loop invariants for symbolic numbers of steps and towers (results are the single runs in time order, keyed by tower in configuration order, one cache per series iff enabled); run_bldfm_parallel strategies 'towers' and 'time' under the Executor.map ordering contract, workers requested or configured, unknown strategy rejected, workers reset their inherited state. NOT under contract: strategy 'both' (flattened index arithmetic) and real scheduling (completion orders, worker counts, parent threads): BOUNDED runs with real pools (bounded/C14.py).",
+        "level_text": "Serial drivers and two of three strategies proved under the ordering contract; 'both' and real scheduling bounded.",
+        "level_note": "Executor.map contract assumed; distinct tower names required.",
+    },
+    "C15": {
+        "modules": ["cachec"], "level": "proof", "floor": 500,
+        "assumptions": COMMON + [A["A7"]], "trusted": [T["Z3"], T["NPLOAD"], T["IVPC"], T["DFT"]],
+        "explanation": "Frame obligation on the symbolic result of S: every input symbol the footprint-mode result depends on is hashed into the lookup key; get-key == put-key on all halo paths; a hit returns the stored triple without solving; misses store exactly the returned result once; dispersion mode never touches the cache; _compute_key hashes every argument and nothing else; get() never raises and returns None for an unreadable entry under the np.load contract.",
+        "level_text": "Completeness/effectiveness/transparency proved on the real solver prologue/epilogue and cache class; crash-safety under the stated np.load contract.",
+        "level_note": "A7; np.load contract trusted with bounded conformance (every truncation point).",
+    },
     "C16": {
-        "modules": ["met"],
-        "level": "proof",
-        "floor": 800,
-        "bounded": True,
-        "assumptions": [A["CPY"], A["A1"], A["A6"]],
-        "trusted": ["dataclasses.dataclass (real CPython implementation executed)", "z3 4.x/5.x LIA+EUF"],
-        "explanation": "",
-        "level_text": "Every list/scalar/None pattern of the forcing (96 configurations) is enumerated; list lengths and elements are symbolic, so the step count, per-step extraction, index safety and the exact rejection condition are proved for all lengths >= 0 from the current source of MetConfig / BLDFMConfig.__post_init__.",
-        "level_note": "CPython executes the extracted bodies on symbolic proxies; z3 discharges LIA/EUF VCs; floats as reals; dataclass machinery is the real one. Bounded native sweep (lengths 1..4) reported separately as bounded.",
-        "technique": "contracts (pre/post/exceptional post) on the real functions; VCs by symbolic execution of the extracted source; z3",
+        "modules": ["met", "parser", "drivers"], "level": "proof", "floor": 800,
+        "assumptions": COMMON, "trusted": [T["Z3"], T["DC"]],
+        "explanation": "96 list/scalar/None patterns enumerated, list lengths and elements symbolic.",
+        "level_text": "Every list/scalar/None pattern of the forcing (96 configurations) is enumerated; list lengths and elements are symbolic, so the step count, per-step extraction, index safety and the exact rejection condition are proved for all lengths >= 0 from the current source of MetConfig / BLDFMConfig.__post_init__; drivers only pass valid step indices.",
+        "level_note": "CPython executes the extracted bodies on symbolic proxies; z3 discharges LIA/EUF VCs; dataclass machinery is the real one.",
     },
 }
+
+for _p in PROPERTIES.values():
+    _p.setdefault("technique", TECH)
+    _p.setdefault("bounded", True)
 
 NOT_APPLICABLE = {}
